@@ -11,7 +11,10 @@
 //!   value_builder  var <hex text>             EventBuilder::add_field (-> add_payload_field) -> scalar
 //!   value_builder  i64|u64 <dec> | f64 <hex bits> | bool 0|1 | null
 //!   value_block    <phys> <n compactions> <scalar>...   real ColumnGroupBuilder block -> real decoder ->
-//!                  (ConditionEvaluator-style read ; EventSink read ; values_to_scalar) per row
+//!                  (REAL ConditionEvaluator::evaluate_zones read ; EventSink read ; values_to_scalar) per row
+//!   value_core     <context_id|event_type> <n compactions> <hex text>...   the same for a CORE string column:
+//!                  var-bytes block named like the core field -> (evaluator ; EventSink) core field of the event,
+//!                  then the strings the compactor reads (into_strings)
 use crate::probes::{hexs, unhex};
 pub const PREFIX: &str = "value_";
 
@@ -27,7 +30,8 @@ use snel_db::engine::core::read::cache::DecompressedBlock;
 use snel_db::engine::core::read::sink::{EventSink, ResultSink};
 use snel_db::engine::core::write::column_group_builder::ColumnGroupBuilder;
 use snel_db::engine::core::write::write_job::WriteJob;
-use snel_db::engine::core::{Event, EventBuilder, WalEntry};
+use snel_db::engine::core::zone::candidate_zone::CandidateZone;
+use snel_db::engine::core::{ConditionEvaluator, Event, EventBuilder, WalEntry};
 use snel_db::engine::types::ScalarValue;
 use std::collections::HashMap;
 use std::sync::Arc;
@@ -114,19 +118,19 @@ fn read_block(buf: Vec<u8>, rows: usize) -> (PhysicalType, ColumnValues) {
     (phys, vals)
 }
 
-/// condition_evaluator.rs materialisation of one row of one payload column
-fn cond_eval_read(values: &ColumnValues, i: usize) -> ScalarValue {
-    let mut builder = EventBuilder::new();
-    let field = "x";
-    match values.physical_type() {
-        Some(PhysicalType::U64) => { if let Some(n) = values.get_u64_at(i) { builder.add_field_u64(field, n) } else { builder.add_field_null(field) } }
-        Some(PhysicalType::I64) => { if let Some(n) = values.get_i64_at(i) { builder.add_field_i64(field, n) } else { builder.add_field_null(field) } }
-        Some(PhysicalType::F64) => { if let Some(f) = values.get_f64_at(i) { builder.add_field_f64(field, f) } else { builder.add_field_null(field) } }
-        Some(PhysicalType::Bool) => { if let Some(b) = values.get_bool_at(i) { builder.add_field_bool(field, b) } else { builder.add_field_null(field) } }
-        _ => { if let Some(v) = values.get_str_at(i) { builder.add_field(field, v) } else { builder.add_field_null(field) } }
-    }
-    let ev: Event = builder.build();
-    ev.payload.get("x").cloned().unwrap_or(ScalarValue::Null)
+/// The REAL materialisation of a flushed zone (ConditionEvaluator::evaluate_zones, no conditions) holding the
+/// single column `field`; one event per row, in row order.
+fn real_eval(field: &str, values: &ColumnValues) -> Vec<Event> {
+    let mut zone = CandidateZone::new(0, "00000".to_string());
+    let mut m: HashMap<String, ColumnValues> = HashMap::new();
+    m.insert(field.to_string(), values.clone());
+    zone.set_values(m);
+    ConditionEvaluator::new().evaluate_zones(vec![zone])
+}
+
+fn core_of(ev: &Event, field: &str) -> String {
+    let s = if field == "context_id" { &ev.context_id } else { &ev.event_type };
+    format!("U{}", hex_or_empty(s.as_bytes()))
 }
 
 pub fn run(t: &[String]) -> String {
@@ -193,8 +197,10 @@ pub fn run(t: &[String]) -> String {
             let mut cols: HashMap<String, ColumnValues> = HashMap::new();
             cols.insert("x".to_string(), cv.clone());
             let mut out = Vec::new();
+            let evs_real = real_eval("x", &cv);
+            if evs_real.len() != rows { return format!("ROWS {} of {}", evs_real.len(), rows); }
             for i in 0..rows {
-                let a = cond_eval_read(&cv, i);
+                let a = evs_real[i].payload.get("x").cloned().unwrap_or(ScalarValue::Null);
                 let mut sink = EventSink::new();
                 sink.on_row(i, &cols);
                 let evs = sink.into_events();
@@ -203,6 +209,41 @@ pub fn run(t: &[String]) -> String {
             }
             let scan = ColumnBlockSnapshot::new(p, cv).into_scalar_values();
             format!("{} | {}", out.join(" "), scan.iter().map(canon_scalar).collect::<Vec<_>>().join(" "))
+        }
+        "value_core" => {
+            let field = t[1].as_str();
+            if field != "context_id" && field != "event_type" { return "BADCASE".into(); }
+            let ncomp: usize = t[2].parse().unwrap_or(0);
+            let mut vals: Vec<ScalarValue> = Vec::new();
+            for x in &t[3..] {
+                let b = if x == "-" { vec![] } else { unhex(x) };
+                match String::from_utf8(b) { Ok(s) => vals.push(ScalarValue::Utf8(s)), Err(_) => return "BADUTF8".into() }
+            }
+            let rows = vals.len();
+            let mut buf = write_block(PhysicalType::VarBytes, &vals);
+            for _ in 0..ncomp {
+                // compaction reads the core columns with into_strings and writes them back as Utf8
+                let (p, cv) = read_block(buf, rows);
+                let strs = ColumnBlockSnapshot::new(p, cv).into_strings();
+                let scal: Vec<ScalarValue> = strs.into_iter().map(ScalarValue::Utf8).collect();
+                buf = write_block(PhysicalType::VarBytes, &scal);
+            }
+            let (p, cv) = read_block(buf, rows);
+            let evs_real = real_eval(field, &cv);
+            if evs_real.len() != rows { return format!("ROWS {} of {}", evs_real.len(), rows); }
+            let mut cols: HashMap<String, ColumnValues> = HashMap::new();
+            cols.insert(field.to_string(), cv.clone());
+            let mut out = Vec::new();
+            for i in 0..rows {
+                let mut sink = EventSink::new();
+                sink.on_row(i, &cols);
+                let evs = sink.into_events();
+                // what the response carries: get_field_scalar(core).to_json()
+                let js = evs_real[i].get_field(field).map(|v| canon_json(&v)).unwrap_or_else(|| "-".into());
+                out.push(format!("{};{};{}", core_of(&evs_real[i], field), core_of(&evs[0], field), js));
+            }
+            let strs = ColumnBlockSnapshot::new(p, cv).into_strings();
+            format!("{} | {}", out.join(" "), strs.iter().map(|s| format!("U{}", hex_or_empty(s.as_bytes()))).collect::<Vec<_>>().join(" "))
         }
         _ => "UNKNOWN_PROBE".into(),
     }
